@@ -202,6 +202,9 @@ func (ex *Exec) oblige(fr *Frame, st *State, kind, label string, pos token.Pos, 
 	if goal == "true" {
 		return
 	}
+	if ex.opts != nil && ex.opts.GhostOnly && kind != "assert" && kind != "loop-exit" {
+		return
+	}
 	name := fr.prefix + "#" + kind
 	if label != "" {
 		name += "(" + label + ")"
@@ -276,6 +279,43 @@ func (ex *Exec) execBlock(fr *Frame, b *ssa.BasicBlock, st *State, pred *ssa.Bas
 	}
 	for i, p := range phis {
 		st.vals[p] = phiVals[i]
+	}
+	if pred != nil {
+		// an edge leaving a loop: `loop N exit` clauses hold there (in terms of the loop-carried variables)
+		for _, li := range fr.loops {
+			// the loop's exit block is the successor of its header outside the body: normal exits and `break`s
+			// (whose blocks are not part of the natural loop) all arrive there
+			if li == nil || li.body[b] || !st.inLoop[li.header] {
+				continue
+			}
+			isDone := false
+			for _, sc := range li.header.Succs {
+				if sc == b && !li.body[sc] {
+					isDone = true
+				}
+			}
+			if !isDone {
+				continue
+			}
+			cls := fr.loopClausesOf(li, "loop-exit")
+			if len(cls) == 0 {
+				continue
+			}
+			ctx := ex.loopCtx(fr, li, st)
+			for i, c := range cls {
+				c.hit = true
+				t, err := ctx.evalBool(c.E)
+				if err != nil {
+					ex.errorf("%s loop %d exit: %v", fnName(fr.fn), li.ord, err)
+					continue
+				}
+				label := c.Label
+				if label == "" {
+					label = fmt.Sprintf("X%d.%d", li.ord, i+1)
+				}
+				ex.oblige(fr, st, "loop-exit", label, token.NoPos, t)
+			}
+		}
 	}
 	if li := fr.loops[b]; li != nil {
 		if st.inLoop[b] {
@@ -598,6 +638,18 @@ func (ex *Exec) loopEnv(fr *Frame, li *loopInfo, st *State) map[string]CV {
 				avail = append(avail, v)
 			} else if _, ok := v.(*ssa.Parameter); ok {
 				avail = append(avail, v)
+			}
+		}
+		if li == nil && len(avail) > 1 {
+			// inside loops: the loop-carried variable of that name of the innermost active loop
+			var phis []ssa.Value
+			for _, v := range avail {
+				if p, ok := v.(*ssa.Phi); ok && p.Comment == n && st.inLoop[p.Block()] {
+					phis = append(phis, v)
+				}
+			}
+			if len(phis) == 1 {
+				avail = phis
 			}
 		}
 		if len(avail) == 1 {
@@ -1451,14 +1503,21 @@ func (ex *Exec) ghostBefore(fr *Frame, st *State, call *ssa.Call) {
 		if site == "" {
 			site = fr.callSiteName(call)
 		}
-		if c.Names[0] != site {
+		if c.Names[0] != site && !(strings.HasSuffix(c.Names[0], "#*") && strings.HasPrefix(site, strings.TrimSuffix(c.Names[0], "*"))) {
 			continue
 		}
+		c.hit = true
 		env := ex.loopEnv(fr, nil, st)
 		for i, a := range call.Call.Args {
 			sv := ex.val(fr, st, a)
 			if sv.Loc == nil && sv.Tup == nil {
 				env[fmt.Sprintf("arg%d", i)] = CV{T: sv.T, Sort: ex.w.sortOf(a.Type()), Type: a.Type()}
+			}
+		}
+		if call.Call.IsInvoke() {
+			// the receiver of an interface call
+			if sv := ex.val(fr, st, call.Call.Value); sv.Loc == nil && sv.Tup == nil {
+				env["recv"] = CV{T: sv.T, Sort: ex.w.sortOf(call.Call.Value.Type()), Type: call.Call.Value.Type()}
 			}
 		}
 		ctx := &EvalCtx{ex: ex, st: st, old: fr.pre, env: env}
@@ -1488,9 +1547,10 @@ func (ex *Exec) ghostAsserts(fr *Frame, st *State, call *ssa.Call) {
 		if site == "" {
 			site = fr.callSiteName(call)
 		}
-		if c.Names[0] != site {
+		if c.Names[0] != site && !(strings.HasSuffix(c.Names[0], "#*") && strings.HasPrefix(site, strings.TrimSuffix(c.Names[0], "*"))) {
 			continue
 		}
+		c.hit = true
 		ctx := &EvalCtx{ex: ex, st: st, old: fr.pre, env: ex.loopEnv(fr, nil, st)}
 		t, err := ctx.evalBool(c.E)
 		if err != nil {
